@@ -23,7 +23,7 @@ PROP_MODULES = {
     'C17': ['obligations.check_ops'],
     'C11': ['obligations.persist_ops'],
     'C12': ['obligations.persist_ops'],
-    'C05': ['obligations.conc_ops', 'obligations.block_ops'],
+    'C05': ['obligations.conc_ops', 'obligations.block_ops', 'obligations.cache_ops', 'obligations.persist_ops', 'obligations.recipes_ops'],
     'C07': ['obligations.cache_ops', 'obligations.queue_ops'],
     'C14': ['obligations.cache_ops', 'obligations.queue_ops', 'obligations.fanout_ops'],
     'C16': ['obligations.e2_jobs'],
